@@ -117,6 +117,63 @@ def events(seed, npts):
     for i in range(len(P)):
         ev.append({"kind": "zp", "P": bits(P[i]), "za": bits(za[i]), "zo": bits(zo[i]), "back": bits(back[i] if i % 2 else backo[i]),
                    "_m": {"P": float(P[i]), "z": float(za[i]), "form": "array", "back_copy": "atmosphere" if i % 2 else "optical"}})
+    # ---- arrays in every memory layout, judged ELEMENT BY ELEMENT at their own index (transposed, Fortran-ordered, swapped axes, strided /
+    # reversed / broadcast views), and one call with more elements than any internal block size (2**16) that is not a multiple of it: a
+    # sample of its elements (both ends, around every multiple of 4096, random ones) is judged like any other element
+    def layouts(draw):
+        yield "transposed 2-D", draw((5, 7)).T
+        yield "Fortran 2-D", np.asfortranarray(draw((4, 6)))
+        yield "swapped axes 3-D", draw((2, 3, 4)).swapaxes(0, 2)
+        yield "strided view", draw((40,))[::3]
+        yield "reversed view", draw((15,))[::-1]
+        yield "column of a C array", draw((6, 4))[:, 1]
+        yield "broadcast view", np.broadcast_to(draw((2,)), (3, 2))
+        yield "70001 elements", np.sort(draw((70001,)))
+        yield "131073 elements 2-D", draw((3, 43691))
+
+    def pick(nelem):
+        if nelem <= 400:
+            return range(nelem)
+        idx = set(range(12)) | set(range(nelem - 12, nelem)) | set(int(i) for i in rng.integers(0, nelem, 150))
+        for k in range(4096, nelem, 4096):
+            idx |= {k - 1, k, k + 1} & set(range(nelem))
+        return sorted(idx)
+
+    lay = 0
+    for name, M, Mo in (("atmosphere", A, O), ("optical", O, A)):
+        for form, arg in layouts(lambda shp: np.where(rng.random(shp) < 0.15, rng.choice(zb, size=shp), rng.uniform(0.0, 120.0, shp))):
+            lay += 1
+            keep = np.array(arg, copy=True)
+            try:
+                pa = np.asarray(M.us_std_atm_pressure_from_altitude(arg), dtype=float)
+                po = np.asarray(Mo.us_std_atm_pressure_from_altitude(arg), dtype=float)
+                back = np.asarray(Mo.us_std_atm_altitude_from_pressure(pa), dtype=float)
+                if pa.shape != keep.shape or po.shape != keep.shape or back.shape != keep.shape or not np.array_equal(np.asarray(arg), keep):
+                    raise ValueError(f"result shapes {pa.shape} {po.shape} {back.shape} for an argument of shape {keep.shape} / argument changed")
+                err = None
+            except Exception as ex:
+                pa = po = back = np.full(keep.shape, np.nan)
+                err = repr(ex)[:160]
+            flat = [np.unravel_index(i, keep.shape) for i in pick(keep.size)]
+            for idx in flat:
+                ev.append({"kind": "pz", "z": bits(float(keep[idx])), "pa": bits(float(pa[idx])), "po": bits(float(po[idx])), "back": bits(float(back[idx])),
+                           "ser": 9000 + lay, "_m": {"z": float(keep[idx]), "P": float(pa[idx]), "form": form, "copy": name, "index": [int(i) for i in idx], "error": err}})
+        for form, arg in layouts(lambda shp: np.where(rng.random(shp) < 0.15, rng.choice(np.asarray(const.std_atm_pressure[:-1], dtype=float), size=shp),
+                                                      101325.0 * 10.0 ** rng.uniform(-8.4, 0.0, shp))):
+            keep = np.array(arg, copy=True)
+            try:
+                za = np.asarray(M.us_std_atm_altitude_from_pressure(arg), dtype=float)
+                zo = np.asarray(Mo.us_std_atm_altitude_from_pressure(arg), dtype=float)
+                back = np.asarray(M.us_std_atm_pressure_from_altitude(za), dtype=float)
+                if za.shape != keep.shape or zo.shape != keep.shape or back.shape != keep.shape or not np.array_equal(np.asarray(arg), keep):
+                    raise ValueError(f"result shapes {za.shape} {zo.shape} {back.shape} for an argument of shape {keep.shape} / argument changed")
+                err = None
+            except Exception as ex:
+                za = zo = back = np.full(keep.shape, np.nan)
+                err = repr(ex)[:160]
+            for idx in [np.unravel_index(i, keep.shape) for i in pick(keep.size)]:
+                ev.append({"kind": "zp", "P": bits(float(keep[idx])), "za": bits(float(za[idx])), "zo": bits(float(zo[idx])), "back": bits(float(back[idx])),
+                           "_m": {"P": float(keep[idx]), "z": float(za[idx]), "form": form, "copy": name, "index": [int(i) for i in idx], "error": err}})
     # ---- histories: ONE buffer object reused across CONSECUTIVE calls of one function and changed in place in between (a stepping
     # loop: z += dz), with no other call in between (a last-call memo survives only then); every call must answer for the values the
     # argument holds NOW.  Arrays, 0-d arrays; both functions; both copies.
